@@ -68,7 +68,7 @@ def evidence(c):
         switches_inside_calls=st.get('inner_switches', 0),
         library_calls_in_plans=st.get('ops', 0),
         strategies=dict(sequential=st.get('strat_sequential', 0), uniform=st.get('strat_uniform', 0), pct=st.get('strat_pct', 0), targeted=st.get('strat_targeted', 0)),
-        fault_kinds_fired=dict(alloc_fail=st.get('faults_alloc', 0), stream_write_error_or_short=st.get('faults_wr', 0), stream_read_error=st.get('faults_rd', 0),
+        fault_kinds_fired=dict(file_system_call_failed=st.get('faults_sys', 0), alloc_fail=st.get('faults_alloc', 0), stream_write_error_or_short=st.get('faults_wr', 0), stream_read_error=st.get('faults_rd', 0),
                                preemption_inside_call=st.get('inner_switches', 0)),
         conflict_pairs_distinct=len(c['triples']),
         ops_per_family=st.get('fam_ops', {}),
